@@ -13,6 +13,25 @@ def facts(ev, upto=None):
   return FACTS(ev if upto is None else ev[:upto])
 
 
+def _returns_underlying_open(ev, ret):
+  """The returned value is <the sink held by self.next_sink at that point>.Open(): literally, or through a
+  local that the path shows to hold the same object (bound from the attribute with no later store, or the very
+  value stored into the attribute)."""
+  v = ret.node.value
+  if not (isinstance(v, ast.Call) and isinstance(v.func, ast.Attribute) and v.func.attr == 'Open' and not v.args and not v.keywords):
+    return False
+  if U(v.func.value).replace(' ', '') == 'self.next_sink':
+    return True
+  k = ev.index(ret)
+  recv = resolved_text(ev, k, v.func.value)
+  stores = [i for i, e in enumerate(ev[:k]) if e.kind == 'stmt' and isinstance(e.node, ast.Assign)
+            and any(U(t).replace(' ', '') == 'self.next_sink' for t in e.node.targets)]
+  if not stores:
+    return recv == 'self.next_sink'
+  j = stores[-1]
+  return recv == resolved_text(ev, j, ev[j].node.value) and recv != 'None'
+
+
 def check(ctx):
   prog = ctx.prog
   ctx.rule('C09.R1', 'fail fast: no underlying sink -> answer FailedFastError without forwarding; otherwise forward')
@@ -245,7 +264,7 @@ def r5(ctx):
       sub = [e for e in ev if e.kind == 'call' and call_attr(e.node) == 'Subscribe' and 'self._OnSinkFaulted' in U(e.node)]
       ctx.ob('C09.R5', o, 'Open subscribes _OnSinkFaulted on the sink it creates', len(sub) == 1, 'subscriptions: %d' % len(sub), why)
     r = [e for e in ev if e.kind == 'ret']
-    ctx.ob('C09.R5', o, 'Open returns the underlying open result', bool(r) and U(r[-1].node.value).replace(' ', '') == 'self.next_sink.Open()', 'Open returns %s' % (U(r[-1].node.value) if r else None),
+    ctx.ob('C09.R5', o, 'Open returns the underlying open result', bool(r) and _returns_underlying_open(ev, r[-1]), 'Open returns %s' % (U(r[-1].node.value) if r else None),
            'the balancer observes this result to mark the node down')
   st = prog.func(R, 'ResurrectorSink.state')
   seen = {}
